@@ -16,24 +16,33 @@ Proof. split; cbn; auto; lia. Qed.
 
 Lemma dinv_step sb s a : DInv sb s -> DInv sb (dstep sb s a).
 Proof.
-  intros [A B C D]. destruct a as [p|]; cbn [dstep].
+  intros [A B C D]. destruct a as [p| | |]; cbn [dstep].
   - destruct (d_chan s && Nat.ltb (length (d_queue s)) (d_cap s)) eqn:E; split; cbn; auto.
     + rewrite A. now rewrite app_assoc.
     + rewrite !app_length. cbn. lia.
     + rewrite app_length. cbn. apply andb_true_iff in E. destruct E as [_ E]. apply Nat.ltb_lt in E. lia.
     + rewrite app_length. cbn. lia.
-  - destruct (d_queue s) as [|p q] eqn:Q; [split; auto; now rewrite Q|]. split; cbn; auto.
-    + rewrite A. now rewrite <- app_assoc.
-    + rewrite B, flat_map_app. cbn. now rewrite app_nil_r.
-    + cbn in D. lia.
+  - destruct (d_phase s); [split; auto| |split; auto].
+    destruct (d_closed s).
+    + split; cbn; auto.
+      * now rewrite app_nil_r.
+      * now rewrite B, flat_map_app.
+      * lia.
+    + destruct (d_queue s) as [|p q] eqn:Q; [split; auto; now rewrite Q|]. split; cbn; auto.
+      * rewrite A. now rewrite <- app_assoc.
+      * rewrite B, flat_map_app. cbn. now rewrite app_nil_r.
+      * cbn in D. lia.
+  - destruct (d_phase s); split; cbn; auto.
+  - split; cbn; auto.
 Qed.
 
+Lemma dinv_any sb s acts : DInv sb s -> DInv sb (fold_left (dstep sb) acts s).
+Proof. revert s. induction acts as [|a acts IH]; intros s I; [exact I|]. cbn. apply IH. now apply dinv_step. Qed.
+
 Theorem dinv_run sb cap acts : DInv sb (drun sb cap acts).
-Proof.
-  unfold drun. assert (G : forall s, DInv sb s -> DInv sb (fold_left (dstep sb) acts s)).
-  { induction acts as [|a acts IH]; intros s I; [exact I|]. cbn. apply IH. now apply dinv_step. }
-  apply G, dinv_init.
-Qed.
+Proof. apply dinv_any, dinv_init. Qed.
+Theorem dinv_run_u sb cap acts : DInv sb (drun_u sb cap acts).
+Proof. apply dinv_any. split; cbn; auto; lia. Qed.
 
 (* handler invocations = the accepted frames that the dispatcher has taken, in arrival order, each push to
    every handler of its command in subscription order, once, and to no other handler *)
@@ -79,9 +88,11 @@ Proof.
   unfold drun. assert (G : forall s, subseq (d_accepted s) (d_received s) ->
      subseq (d_accepted (fold_left (dstep sb) acts s)) (d_received (fold_left (dstep sb) acts s))).
   { induction acts as [|a acts IH]; intros s H; [exact H|]. cbn [fold_left]. apply IH.
-    destruct a as [p|]; cbn [dstep].
+    destruct a as [p| | |]; cbn [dstep].
     - destruct (d_chan s && Nat.ltb (length (d_queue s)) (d_cap s)); cbn; [now apply subseq_app_both|now apply subseq_app_right].
-    - destruct (d_queue s); exact H. }
+    - destruct (d_phase s); try exact H. destruct (d_closed s); [exact H|]. destruct (d_queue s); exact H.
+    - destruct (d_phase s); exact H.
+    - exact H. }
   apply G. apply subseq_nil.
 Qed.
 
@@ -108,4 +119,103 @@ Proof.
   repeat split; auto. unfold route_of in R. destruct (w_cmd p <=? c_CMD_RECONNECT).
   - repeat match goal with H : context [if ?c then _ else _] |- _ => destruct c end; try discriminate; destruct (w_ty p); discriminate.
   - destruct (w_ty p); try discriminate. reflexivity.
+Qed.
+
+(* ---- the dispatcher's lifecycle: late registration, close, drain ---- *)
+
+(* the dispatcher's last iteration hands over everything that is still queued, then reports the connection gone once *)
+Theorem exit_drains sb s : DInv sb s -> d_phase s = DPRunning -> d_closed s = true ->
+  let s' := dstep sb s DTake in
+  d_phase s' = DPExited /\ d_queue s' = [] /\ d_taken s' = d_accepted s /\
+  d_calls s' = flat_map (deliver sb) (d_accepted s) /\ d_gone s' = S (d_gone s).
+Proof.
+  intros [A B _ _] P C. cbn [dstep]. rewrite P, C. cbn. repeat split; auto.
+  rewrite B, A, flat_map_app. reflexivity.
+Qed.
+
+(* after its exit the dispatcher does nothing any more: exactly one "connection gone" report per connection *)
+Theorem exited_is_final sb s a : d_phase s = DPExited ->
+  let s' := dstep sb s a in d_phase s' = DPExited /\ d_calls s' = d_calls s /\ d_gone s' = d_gone s.
+Proof.
+  intros P. destruct a as [p| | |]; cbn [dstep].
+  - destruct (d_chan s && Nat.ltb (length (d_queue s)) (d_cap s)); cbn; auto.
+  - rewrite P. auto.
+  - rewrite P. auto.
+  - cbn. auto.
+Qed.
+Definition gone_ok (s : dstate) : Prop :=
+  (d_gone s = 0 /\ d_phase s <> DPExited)%nat \/ (d_gone s = 1 /\ d_phase s = DPExited)%nat.
+Lemma gone_le_one_step sb s a : gone_ok s -> gone_ok (dstep sb s a).
+Proof.
+  unfold gone_ok. intros H. destruct a as [p| | |]; cbn [dstep].
+  - destruct (d_chan s && Nat.ltb (length (d_queue s)) (d_cap s)); cbn; exact H.
+  - destruct (d_phase s) eqn:P; try (rewrite P; exact H).
+    destruct H as [[G _]|[_ E]]; [|discriminate E].
+    destruct (d_closed s).
+    + cbn. right. rewrite G. split; reflexivity.
+    + destruct (d_queue s); [rewrite P; left; split; [exact G|discriminate]|]. cbn. left. split; [exact G|discriminate].
+  - destruct (d_phase s) eqn:P; try (rewrite P; exact H).
+    destruct H as [[G _]|[_ E]]; [|discriminate E]. cbn. left. split; [exact G|discriminate].
+  - cbn. exact H.
+Qed.
+Theorem gone_reported_once sb cap acts : gone_ok (drun_u sb cap acts).
+Proof.
+  unfold drun_u.
+  assert (G : forall s, gone_ok s -> gone_ok (fold_left (dstep sb) acts s)).
+  { induction acts as [|a acts IH]; intros s H; [exact H|]. cbn [fold_left]. apply IH. now apply gone_le_one_step. }
+  apply G. left. cbn. split; [reflexivity|discriminate].
+Qed.
+
+(* registration commutes with everything the reader and the closer do *)
+Theorem start_commutes sb s a : reader_side a = true -> dstep sb (dstep sb s DStart) a = dstep sb (dstep sb s a) DStart.
+Proof.
+  destruct s as [ch cp q rc ac tk cl dr ph clo gn]. destruct a as [p| | |]; try discriminate; intros _; destruct ph; cbn -[Nat.ltb andb];
+    try (destruct (ch && Nat.ltb (length q) cp)); reflexivity.
+Qed.
+Lemma start_past_reader sb rs : forallb reader_side rs = true -> forall s,
+  fold_left (dstep sb) (rs ++ [DStart]) s = fold_left (dstep sb) (DStart :: rs) s.
+Proof.
+  induction rs as [|a rs IH]; intros F s; [reflexivity|]. cbn in F. apply andb_true_iff in F. destruct F as [Fa F].
+  cbn [app fold_left]. rewrite (IH F). cbn [fold_left]. now rewrite start_commutes.
+Qed.
+(* so a connection whose callback is registered late behaves, from then on, exactly like one whose callback was
+   registered before the first frame arrived *)
+Theorem late_registration_unobservable sb cap rs ks : forallb reader_side rs = true ->
+  drun_u sb cap (rs ++ DStart :: ks) = drun sb cap (rs ++ ks).
+Proof.
+  intros F. unfold drun_u, drun. replace (rs ++ DStart :: ks) with ((rs ++ [DStart]) ++ ks) by now rewrite <- app_assoc.
+  rewrite fold_left_app, (start_past_reader sb rs F). cbn [fold_left]. now rewrite fold_left_app.
+Qed.
+
+Lemma reader_side_run sb rs : forallb reader_side rs = true -> forall s,
+  let s' := fold_left (dstep sb) rs s in
+  d_phase s' = d_phase s /\ d_taken s' = d_taken s /\ d_calls s' = d_calls s /\ d_gone s' = d_gone s /\
+  (d_closed s = true \/ In DClose rs -> d_closed s' = true).
+Proof.
+  induction rs as [|a rs IH]; intros F s; cbn [fold_left].
+  - repeat split; auto. intros [C|[]]; exact C.
+  - cbn in F. apply andb_true_iff in F. destruct F as [Fa F]. destruct (IH F (dstep sb s a)) as (P & T & Cl & G & K).
+    assert (E : d_phase (dstep sb s a) = d_phase s /\ d_taken (dstep sb s a) = d_taken s /\ d_calls (dstep sb s a) = d_calls s /\
+                d_gone (dstep sb s a) = d_gone s /\ (d_closed s = true \/ a = DClose -> d_closed (dstep sb s a) = true)).
+    { destruct a as [p| | |]; try discriminate; cbn [dstep].
+      - destruct (d_chan s && Nat.ltb (length (d_queue s)) (d_cap s)); cbn; repeat split; auto; intros [C|C]; [exact C|discriminate|exact C|discriminate].
+      - cbn. repeat split; auto. }
+    destruct E as (P' & T' & C' & G' & K'). rewrite P, T, Cl, G. repeat split; auto.
+    intros [C|[C|C]]; apply K; [left; apply K'; now left|left; apply K'; right; now symmetry|now right].
+Qed.
+
+(* frames the reader queued on a connection that was closed before the client registered its callback are all
+   delivered by the dispatcher's first (and last) iteration; nothing is owed afterwards *)
+Theorem closed_before_registration_delivers_all sb cap rs : forallb reader_side rs = true -> In DClose rs ->
+  let s := drun_u sb cap (rs ++ [DStart; DTake]) in
+  d_calls s = flat_map (deliver sb) (d_accepted s) /\ d_queue s = [] /\ d_gone s = 1%nat /\ d_phase s = DPExited.
+Proof.
+  intros F I. cbv zeta. rewrite (late_registration_unobservable sb cap rs [DTake] F). unfold drun. rewrite fold_left_app. cbn [fold_left].
+  destruct (reader_side_run sb rs F (d0 cap)) as (P & T & Cl & G & K).
+  set (m := fold_left (dstep sb) rs (d0 cap)) in *.
+  assert (Im : DInv sb m) by (apply dinv_any, dinv_init).
+  destruct (exit_drains sb m Im P (K (or_intror I))) as (P' & Q' & T' & C' & G').
+  repeat split; auto.
+  - rewrite C'. f_equal. cbn [dstep]. rewrite P, (K (or_intror I)). reflexivity.
+  - rewrite G', G. reflexivity.
 Qed.
